@@ -2,7 +2,7 @@
 LIFT, part 5: the bundle `LiftInv` = crash invariant `CrashInvC5b` ∧ "removals are
 postponed only while the last sync has failed" (`SysPostD14`) ∧ payload-cache invariant
 (`SysCacheInv`), and its four closure properties: fresh store, legal history, clean
-restart (with the older chunk files synced), crash recovery. Every theorem stated from
+restart (D15: no hypothesis on the older chunk files any more), crash recovery. Every theorem stated from
 `LiftInv` (or from one of its parts) therefore holds after arbitrary mixtures of histories,
 clean restarts and crash recoveries.
 
@@ -75,11 +75,11 @@ theorem oldSynced_of_single_file_LIFT {y : Sys} {r : RefLog} {W : List Op} {A E 
 /-! ### Clean restart -/
 
 theorem liftInv_restart_LIFT {y : Sys} {r : RefLog} {W : List Op} {A E K : Nat}
-    (h : LiftInv y r W A E K) (hc : y.Clean) (hold : y.OldSyncedLIFT) (cfg' : Cfg) :
+    (h : LiftInv y r W A E K) (hc : y.Clean) (cfg' : Cfg) :
     LiftInv ((y.step .drop).step (.openWith cfg')) r W A E K ∧
     ((y.step .drop).step (.openWith cfg')).Clean ∧
     ((y.step .drop).step (.openWith cfg')).OldSyncedLIFT := by
-  have h1 := crashInv_clean_restart_LIFT h.1 hc hold cfg'
+  have h1 := crashInv_clean_restart_LIFT h.1 hc cfg'
   have h2 : SysPostD14 ((y.step .drop).step (.openWith cfg')) := (h.2.1.step _).step _
   have h3 := c15_restart_step y r cfg' h.1.csys hc
   obtain ⟨s, hs, hq, hp, hrem, hpost⟩ := hc
